@@ -100,14 +100,29 @@ def body_diffuse(case):
     # the faces of the cube are C01/C02's business; here the limb singularity (u4 -> 0) is kept at a distance
     u_rows = [[r[0], r[1], r[2], min(max(r[3], 1e-4), 1.0)] for r in case["u"]]
     geo = gc.make_geo(cfg)
+    early = case.get("earlier")
     with cut("RegionGeom.throw"):
-        g, u = _throw(cfg, u_rows)
+        if early:
+            # the object has thrown AND evaluated an earlier batch (of the same size, or one event more) before the
+            # batch under test: the integrals follow from the columns of the batch thrown last
+            n0 = len(u_rows) + (1 if early == "longer" else 0)
+            rows0 = [[0.2 + 0.6 * r[(j + 1) % 4] for j in range(4)] for r in (u_rows + u_rows[:1])[:n0]]
+            g, _ = _throw(cfg, rows0)
+            k0 = int(np.asarray(g.event_mask, dtype=bool).sum())
+            if k0:
+                g.mcintegral(np.full(k0, 10.0), np.full(k0, 0.9), np.full(k0, 0.5), 5.0, 1.0, 1.0)
+            u = np.array(u_rows, dtype=np.float64).T.copy()
+            g.throw(u)
+        else:
+            g, u = _throw(cfg, u_rows)
     K = len(u_rows)
     mask = np.asarray(g.event_mask, dtype=bool)
     k = int(mask.sum())
     labels = set()
     if k == 0:
         return {"nothing_kept"}
+    if early:
+        labels.add("earlier_batch_thrown_and_evaluated")
     beta_rad = np.asarray(g.beta_rad(), dtype=float)
     theta = np.asarray(g.thetas(), dtype=float)
     L = np.asarray(g.pathLens(), dtype=float)
@@ -561,7 +576,7 @@ arrays = {
 SUBCHECKS = [
     SubCheck(
         "diffuse_arrays",
-        st.fixed_dictionaries({"cfg": gc.geom_config(), "u": gc.points(2, 40), "bad": st.sampled_from([None, None] + gc.BAD_THROWS), "shallow": st.booleans(), **arrays, "own": st.lists(st.integers(0, 5), min_size=3, max_size=12), "scalar_cos": st.booleans(), "perm": st.lists(st.floats(0, 1), min_size=40, max_size=40)}),
+        st.fixed_dictionaries({"cfg": gc.geom_config(), "u": gc.points(2, 40), "bad": st.sampled_from([None, None] + gc.BAD_THROWS), "shallow": st.booleans(), "earlier": st.sampled_from([None, None, "same", "same", "longer"]), **arrays, "own": st.lists(st.integers(0, 5), min_size=3, max_size=12), "scalar_cos": st.booleans(), "perm": st.lists(st.floats(0, 1), min_size=40, max_size=40)}),
         body_diffuse,
         lambda labels: bool(labels & {"threshold_and_cone_cuts", "tie"}),
         {"quick": 600, "thorough": 30000},
